@@ -83,6 +83,12 @@ CHECKS["C19"] = dict(
     note="Trusted: TLC, W1/W2 doubles, the stub that carries the shell's logging statements. D17 (double quote in a full segment) was found and fixed.",
     design="§4 C19")
 
+CHECKS["C20"] = dict(
+    technique="ThreadedEngine.tla model-checked by TLC (iteration sub-steps with registration/enqueue/arrival/time in between; no-re-arm control refuted) + TLC-simulated behaviours replayed sub-step by sub-step into the real GeckoUdpSocket + real blocking-client handshakes under bounded loss judged by TLC",
+    text="TLC checks FIFO order of transmissions, pacing >= 1/rate, <= 1+N transmissions, no retransmission after an answer, removal at the next cleanup, for all registration orders of two requests and an overlapping, raising service handler. Hundreds (quick) to thousands (thorough) of TLC-simulated behaviours are replayed on the real engine with handlers mirroring the model and the projected state compared after every sub-step (this found and now models that a retransmission queued before the first transmission is dropped for lack of a destination). The real blocking client completes its handshake against the real simulator with an identical block under seeded loss patterns that lose up to N leading attempts of every step; transmissions per step and send gaps are judged by TLC.",
+    note="Trusted: TLC, the stepped engine (W2), exact binary time units in the replay. Assumption: no handler timeout elapses between a datagram's dispatch and the timeout scan of the same iteration. Real-thread preemption of the queues is not explored (C16 covers the locked counters).",
+    design="§4 C20")
+
 NOT_YET = {}
 
 
